@@ -52,6 +52,8 @@ def special_files():
     out.append(("fatal.c", h("fatal.c") + "\n#foo\n"))
     # a fatal error raised INSIDE the #if expression parser (where the process recursion limit is lowered),
     # and a probe whose analysis needs a recursion depth above that lowered limit
+    # member names spelled like keywords after a call: rules that consult keyword tables built once per process
+    out.append(("kwmember.c", "int\tf(t_c *c)\n{\n\tget_conf(c)->inline = c->a || c->b;\n\tlast(c)->next = c;\n\tlast(c)->restrict = c->a && c->b, c->d;\n\treturn (0);\n}\n"))
     out.append(("ppfatal.c", "#if (\n"))
     out.append(("deep.c", "int\tf(int a)\n{\n\treturn (" + "(" * 120 + "a" + ")" * 120 + ");\n}\n"))
     out.append(("fatal2.c", "int\tmain(void)\n{\n\treturn (0);\n}\n) )"))
@@ -86,6 +88,7 @@ def run(res, tier, br, model_ok=True, search=False):
         nsp = len(special_files())
         sp0 = len(fam) - nsp
         for i in range(nsp):
+            hist.append([sp0 + i, sp0 + i])
             for j in range(nsp):
                 leaves_state = fam[sp0 + i][0] in ("ppfatal.c", "ppbad.c", "fatal.c", "fatal2.c", "pp.c")
                 if i != j and (big or leaves_state or (i + j) % 3 == 0):
